@@ -62,7 +62,7 @@ prop('C18',
      rule='(a) random histories of 1-4 token streams (newline tokens with space/tab indentation and several physical lines, nested brackets, unmatched closers, '
           'streams abandoned after k outputs, failing streams) processed by ONE real Indenter object (tab_len 8/4/1) vs the Lean model restarted from its initial state '
           'for each stream: emitted INDENT/DEDENT/token sequence, DedentError/AssertionError and the point where it is raised; (b) random source texts lexed through '
-          'Lark(postlex=Indenter) vs CPython tokenize (first logical line unindented, spaces only). Non-trivial = the stream contains a newline token; distinct by canonical hash.',
+          'Lark(postlex=Indenter) vs CPython tokenize (first logical line unindented, spaces only). Non-trivial = the stream contains a newline token; distinct by canonical hash. A quarter of the plain tokens have empty text.',
      not_proved=['the reference algorithm is stated per logical line (handle_nl_is_reference); its agreement with CPython\'s tokenizer itself is compared on generated sources, not proved'],
      assumptions=['str.rsplit/count as specified; tabs count tab_len columns each (lark\'s documented rule, not CPython\'s)'],
      level_text='Theorems: every stream that does not raise has equally many INDENT and DEDENT (for all streams, by induction over the verbatim model of handle_NL/_process/process); process is a '
@@ -81,7 +81,7 @@ prop('C07',
      rule='random terminal sets (keyword/identifier pairs, prefixes, priorities -1..2, i flags on strings and regexps, ordered alternations, every 25th case with 101-125 extra terminals) in flat '
           'and sequential LALR grammars x 3 texts x str/bytes: (a) Lark.lex token list or UnexpectedCharacters(pos, allowed) vs the Lean model lexBasic; (b) the contextual lexer driven token by token through '
           'parse_interactive, with the terminal set of each parser state recorded, vs lexCtx (incl. the root-lexer retry that turns the error into UnexpectedToken); (c) with at most one regexp terminal: '
-          'basic parse ok => contextual parse ok with the same tree. Regex facts come from individually compiled patterns. Non-trivial = two terminals match at one position; distinct by canonical hash. The basic lexer of the saved-and-loaded parser (Lark.save/Lark.load) is compared with the same model; regexps carry i/m/s/x flags.',
+          'basic parse ok => contextual parse ok with the same tree. Regex facts come from individually compiled patterns. Non-trivial = two terminals match at one position; distinct by canonical hash. The basic lexer of the saved-and-loaded parser (Lark.save/Lark.load) is compared with the same model; regexps carry i/m/s/x flags. The maximal width of the documented order is computed by the harness from the regexp with its flags (not read from lark\'s Pattern objects); verbose-flag terminals whose layout changes the width.',
      not_proved=['the contextual variant lexCtx (per-state sub-lexers, root retry) has only the list lemma contextual_refines_basic; its executable form is tied by correspondence'],
      assumptions=['Python re: a top-level alternation picks the first matching branch with that branch\'s own preferred length; sre max_width as computed by lark'],
      level_text='Theorems: the scan order is the documented total order (sorted permutation; key re-extracted from source and compared by decide); the lexer loop tiles the text with first-match pieces up to the end or the '
@@ -101,7 +101,7 @@ prop('C01',
           '{basic, dynamic, dynamic_complete} x texts (60% sampled sentences, a third of them mutated by delete/insert/truncate/reverse, plus random strings). The Lean recogniser `accepts` runs on the lattice the '
           'PROPERTY prescribes (basic: the token chain; dynamic: longest member prefix per terminal and position; dynamic_complete: every member prefix; built with re.fullmatch on substrings, not with lark\'s '
           'procedure); by accepts_iff its verdict is membership in the language, compared with parse() succeeding; every chart column is also compared with lark\'s columns[i] and to_scan (snapshots through a wrapper on '
-          'predict_and_complete). Non-trivial = non-empty text; distinct by canonical hash. Loader stream: a grammar AST rendered as written (anonymous literals incl. punctuation whose automatic names collide with user terminals, unreachable rule chains holding keywords, unused terminals) and as meant (own reachability, explicit names): both must accept the same texts under basic, dynamic and dynamic_complete.',
+          'predict_and_complete). Non-trivial = non-empty text; distinct by canonical hash. Loader stream: a grammar AST rendered as written (anonymous literals incl. punctuation whose automatic names collide with user terminals, unreachable rule chains holding keywords, unused terminals) and as meant (own reachability, explicit names): both must accept the same texts under basic, dynamic and dynamic_complete. The loader stream also carries large ranged repetitions written out on the as-meant side and terminals defined by alternatives (as meant: one terminal per alternative; dynamic_complete only); the removal rule for unused rules is lark\'s own (a rule goes when no other remaining rule mentions it), computed independently. The EBNF desugaring oracle of C03 runs here too.',
      not_proved=['EBNF-to-BNF compilation is outside this model (C09 covers the repetition operators, C03 the shaping); the grammars here are plain BNF plus %ignore',
                  'compile_error_iff_duplicate_alternatives (last sentence of C01) is checked only as "construction of duplicate-free grammars never fails or hangs"'],
      assumptions=['Python re.fullmatch decides membership of a substring in a terminal\'s regular language', 'the terminal pool stays outside known finding F6 (ordered alternation / lazy quantifiers)'],
@@ -165,7 +165,7 @@ prop('C03',
      rule='EBNF level: random grammar ASTs are rendered to Lark EBNF and, independently, desugared by the harness into plain BNF with explicit inlined helper rules (kept-all under ! rules); both are compiled by lark and must agree (Earley, explicit ambiguity, acyclic only) on language and tree sets. random Lark sources using ?, !, _rules, _TERMINALS, aliases, [..], ?, *, +, ~n, ~n..m, groups, templates, priorities x keep_all_tokens x maybe_placeholders, compiled by the real front end; sentences sampled '
           'from the compiled rules; engines earley/{dynamic,basic,dynamic_complete}, lalr/{contextual,basic}, cyk. For each engine the RAW derivation it found is obtained by running the same engine with raw '
           '(rule, children) builders in place of the callback chain; the Lean buildList (proved equal to the documented shapeList) turns it into the expected tree (node and token identities carried as unique labels), '
-          'compared with the tree parse() returns. For inputs with a single derivation all engines that accept must return equal trees. Non-trivial = derivation with > 1 rule node; distinct by canonical hash.',
+          'compared with the tree parse() returns. For inputs with a single derivation all engines that accept must return equal trees. Non-trivial = derivation with > 1 rule node; distinct by canonical hash. A tenth of the shape-stream grammars import rules (filtered tokens, private dependencies) from a module file; the model\'s keep_all flag is the rule\'s ! or the instance\'s keep_all_tokens option.',
      not_proved=['EBNF->BNF compilation (placeholder sizing by FindRuleSize, helper rules) is exercised through the real front end but not modelled: the theorem starts from lark\'s compiled rules and their options',
                  'CYK: revert_cnf is covered by the raw-derivation comparison only'],
      assumptions=['both runs of an engine (normal and raw builders) pick the same derivation (resolution is deterministic: C05)'],
@@ -204,7 +204,7 @@ prop('C14',
           'newline-bearing ignores. For each text: the verified loop scanRaw runs on oracle tables (search: earliest position where a non-ignored terminal of the start state matches, from individually compiled regexes; '
           'attempt: longest token prefix after which $END is accepted, from the real lexer and interactive parser started at every offset) and must reproduce scan()\'s ranges; every match value must equal parse() of the '
           'snippet as a TextSlice (trees, token positions and all meta fields in full-buffer coordinates); on the safe stream ranges must equal brute-force leftmost-longest over all substrings that parse. '
-          'Non-trivial = at least one match; distinct by canonical hash.',
+          'Non-trivial = at least one match; distinct by canonical hash. Also: random LALR shapes with merged lookaheads and \'same sub-rule in an end-rejecting and an end-accepting context\' shapes (with the brute-force oracle), and %ignore patterns that overlap start terminals (model loop only).',
      not_proved=['SearchSound (a position the search jumps over starts no non-ignored terminal) and the oracles\' range lemmas are hypotheses of the theorems, sampled on every case through the tables',
                  'value = parse(snippet) is compared, not proved (it rests on C06 window_start_exact and C13 replay)'],
      assumptions=['known finding F9: the no-miss clause is relative to the tokenisation of the text (a token is never split by a snippet end)'],
@@ -222,7 +222,7 @@ prop('C15',
      rule='random CFGs over string/regexp terminals with newline-bearing ignores x {lalr/basic, lalr/contextual, earley/basic, earley/dynamic, earley/dynamic_complete, cyk} x ASCII texts (sampled sentences, mutated, random) '
           'embedded in random buffers with newlines before and after: the text is parsed as str, as bytes (use_bytes), as TextSlice(buffer, a, b) and as TextSlice over bytes. Compared: acceptance, tree shape, token types/values, '
           'offsets relative to the window start, error class and position; line/column of every token, meta and error of the window results against the Lean stamp model evaluated on the whole buffer. '
-          'Non-trivial = non-empty text in a window that does not start at 0; distinct by canonical hash.',
+          'Non-trivial = non-empty text in a window that does not start at 0; distinct by canonical hash. LALR: the same comparison through on_error recovery that skips unmatched characters. Custom lexer classes of interface 0 and 1 over windows: the result must be a TypeError or the parse of the window.',
      not_proved=['equality of tree shape/token values between representations is compared, not proved (it needs the regex engine to agree on str and bytes and to be window-invariant: named hypotheses)'],
      assumptions=['Python re matches ASCII text identically as str and as bytes', 'no terminal uses look-behind across the window start'],
      level_text='Theorems: a counter positioned on a window starts with the buffer\'s coordinates, every token then stamped carries the buffer\'s offsets/lines/columns, snapshot resume is exact, and coordinates shift by the '
@@ -240,7 +240,7 @@ prop('C16',
           'v_args(inline=True), v_args(tree=True); callbacks are free constructors ("cb", name, children), so equal results under them imply equal results under every pure callback). Per sampled sentence: '
           'Lark(transformer=T).parse vs T.transform(Lark().parse) vs the Lean embedded chain buildListT and the Lean transform-after trV (both on the raw derivation of the real parser); Transformer, Transformer_NonRecursive, '
           'Transformer_InPlace, Transformer_InPlaceRecursive on deep copies of the parse tree: results, multiset of calls (once per node) and children-before-parents order, vs the Lean tr / runStack. '
-          'Non-trivial = at least one callback applies; distinct by canonical hash. A fifth of the chosen callbacks return None.',
+          'Non-trivial = at least one callback applies; distinct by canonical hash. A fifth of the chosen callbacks return None. A third of the chosen terminal callbacks return None; in a third of the four-variant comparisons __default__ is overridden in a mixin the concrete class inherits from.',
      not_proved=['inplace_eq_recursive assumes the walk processes a node after its child subtrees (observed on every call log: children-before-parents); iter_subtrees itself (queue walk with identity de-duplication) is not modelled; Transformer_InPlaceRecursive is, as a function of a proper tree, the recursion of Transformer and is compared on every case', 'known finding F8: callbacks on inlined (_) rules are excluded (hypothesis of the theorem)'],
      assumptions=['callbacks are pure and total; __default__/__default_token__ at their defaults; Discard and meta arguments excepted as the property says'],
      level_text='Theorems: for every derivation (inlined rules not ?-rules) and arbitrary rule/token callbacks not attached to inlined rules, the embedded callback chain computes exactly Transformer.transform of the plain tree; '
@@ -259,7 +259,7 @@ prop('C12',
           'completed construction, crash during the write (a strict prefix of the rewritten file is left), external truncation at a random offset, deletion, a complete file written for another request. After every '
           'operation the real file is classified (absent / undecodable / complete file of request r, by its header line learned from lark itself) and compared with the verified state machine; every completed construction '
           'must not raise and must behave (10 probe inputs: trees with positions or error class/position) like an uncached build of its own request and current import content. Non-trivial = the history contains a fault; '
-          'distinct by canonical hash. Requests also differ in priority (None/normal/invert) on a grammar with colliding prioritised terminals, and import their module through a package loader (PackageResource in used_files).',
+          'distinct by canonical hash. Requests also differ in priority (None/normal/invert) on a grammar with colliding prioritised terminals, and import their module through a package loader (PackageResource in used_files). Cache files written under a simulated other Python minor version / other lark version (the module globals the key is computed from are swapped) must be replaced, not served.',
      not_proved=['corruption of the pickled body that keeps framing and header valid is known finding F5 (no checksum) and is outside the modelled fault set; body byte flips are therefore not generated',
                  'pickle (self-delimiting) and sha256/hash injectivity are parameters (Env.key_inj/hash_inj)'],
      assumptions=['pickle.load fails on every strict prefix of a pickle', 'sha256 is injective on the inputs met', 'a non-atomic write may leave any prefix'],
@@ -278,7 +278,7 @@ prop('C11',
      rule='(a) random plain Python values (None, ints, strings, lists, dicts, frozensets) through the real _serialize/_deserialize vs the Lean ser/deser; (b) random feature-rich LALR grammars (C03 generator; terminals varied '
           'with i/s flags, priorities, regexps, alternations) x keep_all_tokens, maybe_placeholders, propagate_positions, lexer, g_regex_flags, bytes mode: the original instance vs Lark.load(save), vs a second construction served '
           'from the cache file, vs cache=True under a second option set, vs the generated stand-alone module (every third case; instantiated once with a load-time option and then plainly), on 3 sampled sentences and 3 random texts '
-          'each: parse (full canonical trees with positions and meta, or error class, position and expected set), interactive parse with accepts() after every token, and scan(). Non-trivial: every grammar case; values containing a frozenset.',
+          'each: parse (full canonical trees with positions and meta, or error class, position and expected set), interactive parse with accepts() after every token, and scan(). Non-trivial: every grammar case; values containing a frozenset. Import histories: a grammar importing a module file, random sequences of (construct through the cache | edit the imported file): every cached parser must behave like a direct build of the grammar as it is now.',
      not_proved=['behaviour equality of the restored instance is compared, not proved: the Lean theorems cover the field-wise round trip on plain data, the frozenset gap and its hook, and that every field the behaviour reads is in the '
                  'extracted field tables', 'the parse-table re-encoding (ParseTableBase.serialize) is exercised by the differential run only'],
      assumptions=['pickle round-trips the serialised dict faithfully'],
@@ -298,7 +298,7 @@ prop('C10',
           'interleavings of three) through the first use of a fresh instance with a user lexer callback are executed with a sys.settrace gate scheduler (gates: read _scanner, assign callback, [merge loop], return of _build_scanner, '
           'read callback) and compared with the Lean small-step run; every token must carry the callback\'s effect. (b) 4 free-running threads x several rounds on fresh instances (switch interval 1 microsecond) for LALR/Earley configurations. '
           '(c) random histories of 3-9 calls (parse, lex, scan, parse_interactive; succeeding, failing, generators abandoned after k items; other instances created in between; every fourth history with a stateful Indenter post-lexer) on ONE '
-          'instance, each call compared with the same call on a fresh instance. Non-trivial: schedules that interleave, histories of > 2 calls; distinct by canonical hash. A quarter of the histories use instances that share one cache location under differing options (priority None/normal/invert, keep_all_tokens, maybe_placeholders, lexer, propagate_positions): every instance created through the location is compared with an uncached build of its own options.',
+          'instance, each call compared with the same call on a fresh instance. Non-trivial: schedules that interleave, histories of > 2 calls; distinct by canonical hash. A quarter of the histories use instances that share one cache location under differing options (priority None/normal/invert, keep_all_tokens, maybe_placeholders, lexer, propagate_positions): every instance created through the location is compared with an uncached build of its own options. 30% of the histories use an Earley instance (basic/dynamic/dynamic_complete, resolve/explicit); the empty text and blank-only texts occur after other calls; other instances are also compiled from the shared instance\'s Grammar object under another priority mode (fixed finding F26).',
      not_proved=['history independence of the whole instance (search scanner, per-state lexers, PatternRE._width, TreeMatcher cache) has no Lean invariant yet: it is compared call by call against fresh instances',
                  'atomicity granularity (one attribute read/write under the GIL) is assumed; free-threaded builds and C-level races inside re are outside the model'],
      assumptions=['attribute reads/writes are atomic under the GIL', 'user callbacks are stateless (the property excludes stateful ones)'],
@@ -316,7 +316,7 @@ prop('C17',
      rule='(a) random names/prefixes/alias tables through the real _get_mangle vs the Lean mangle; (b) a random grammar is split into a main file and a module (optionally a nested module imported by the module): imports with and '
           'without "->" renames, inlined _helper rules, a local rule named like a non-imported module rule, %override and %extend of imported rules, an imported template; the module files are written to a temp directory and the '
           'importing grammar is compared with a hand-inlined text produced by the generator itself (independent of lark\'s import code): both must build or both fail, and on 6 inputs each (Earley explicit ambiguity and LALR) '
-          'give the same error class or the same trees modulo the documented module__ prefix. Non-trivial: every split; distinct by canonical hash. Module rules and overriding definitions carry their own ?/! modifiers; a third of the cases run with keep_all_tokens=True.',
+          'give the same error class or the same trees modulo the documented module__ prefix. Non-trivial: every split; distinct by canonical hash. Module rules and overriding definitions carry their own ?/! modifiers; a third of the cases run with keep_all_tokens=True. A quarter of the cases are diamond imports (a second module importing from the first next to the direct import); the module\'s template parameter may be spelled like a rule of the importing grammar.',
      not_proved=['_remove_unused (pruning), %override/%extend and template substitution are compared against the hand-inlined text, not proved', 'freedom from clashes with local names is sampled (local rule named like a non-imported module rule)'],
      assumptions=['module prefixes do not begin with an underscore (hypothesis of mangle_is_injective)'],
      level_text='Theorems: an injective renaming of nonterminals preserves the language exactly; _get_mangle (mirrored in Lean, compared with the real function) is injective on non-aliased names, preserves the leading-underscore (inlining) '
@@ -351,7 +351,7 @@ prop('C05',
      rule='random prioritised ambiguous grammars (rule priorities -2..3, terminal priorities, inlined/?-rules, empty alternatives) x {basic, dynamic, dynamic_complete} x priority in {normal, invert, None}: the derivation the real parser '
           'chose (recovered with raw builders) must be one of the brute-force derivations, and for grammars without directly empty alternatives its total priority (rule priorities as written, plus terminal priorities under the dynamic lexers) '
           'must be the maximum (minimum under invert) over all derivations; the real SPPF is exported (tree-unfolded, with ForestSumVisitor\'s weights) and its root priority compared with the Lean prio and best(derivs); a batch of '
-          'parses is repeated in subprocesses under 3 (thorough: 12) PYTHONHASHSEED values and must be byte-identical. Non-trivial = more than one derivation; distinct by canonical hash. The built-in precedence clause is checked on the chosen derivation: a directly empty alternative may be used only where no other alternative of the rule consists of nullable symbols only (acyclic grammars). Prioritised rules also carry [x] items (separate RuleOptions per alternative) and an overlapping terminal.',
+          'parses is repeated in subprocesses under 3 (thorough: 12) PYTHONHASHSEED values and must be byte-identical. Non-trivial = more than one derivation; distinct by canonical hash. The built-in precedence clause is checked on the chosen derivation: a directly empty alternative may be used only where no other alternative of the rule consists of nullable symbols only (acyclic grammars). Prioritised rules also carry [x] items (separate RuleOptions per alternative) and an overlapping terminal. Every ambiguous symbol node of the real forests is replayed on the Lean choose (Choice.lean). Stress shape keyword-vs-identifier: two prioritised terminals reading the same text as unit alternatives.',
      not_proved=['the choice function of ForestToParseTree (first family in sort order) and its agreement with the DP value is compared per case, not proved', 'the empty-alternative precedence clause is not checked beyond "the result is a derivation"',
                  'independence from hash order is sampled across PYTHONHASHSEED values (Lean cannot exhibit CPython set iteration order)', 'cyclic grammars: optimality not claimed'],
      assumptions=['acyclic grammars without directly empty alternatives for the optimality clause'],
@@ -367,7 +367,7 @@ prop('C20',
      rule='random ambiguous/nullable/cyclic grammars x {basic, dynamic, dynamic_complete}: the forest root from ambiguity="forest" is transformed with TreeForestTransformer(resolve_ambiguity=False), the _ambig nodes expanded, and the set of '
           'unshaped trees compared with the brute-force derivation set (none missing, none extra, none twice); resolve_ambiguity=True must give a member; is_ambiguous must be False for a single derivation; ForestVisitor (plain and '
           'single_visit), ForestTransformer, ForestSumVisitor and both TreeForestTransformer settings must terminate on every forest including cyclic ones (8 s guard), with on_cycle counted. Non-trivial = more than one derivation or cyclic; '
-          'distinct by canonical hash. Tiling stream: terminals that may contain the ignored characters, dynamic and dynamic_complete: every tree encoded by the explicit result and by the forest must tile the input (tokens ordered, disjoint, matching their terminal; every gap ignored text). One overlapping terminal AB: /[ab]/ with a derivation oracle that reads a token as any terminal matching it.',
+          'distinct by canonical hash. Tiling stream: terminals that may contain the ignored characters, dynamic and dynamic_complete: every tree encoded by the explicit result and by the forest must tile the input (tokens ordered, disjoint, matching their terminal; every gap ignored text). One overlapping terminal AB: /[ab]/ with a derivation oracle that reads a token as any terminal matching it. The tiling stream includes terminals with an optional suffix (a proper prefix of a match may match only partially).',
      not_proved=['visitor termination (measure: nodes not yet visited + stack) is observed under a time guard, not proved', 'forest soundness is compared with the enumeration, not proved'],
      assumptions=['the brute-force enumerator is an independent oracle'],
      level_text='Theorem: every derivation of the input is present in the forest with all its nodes and packed families (completeness over the chart proved correct in C01). The real forest is expanded and compared with the brute-force '
@@ -383,7 +383,7 @@ prop('C19',
      rule='random feature-rich grammars (C03 generator, maybe_placeholders=False; 40% with multi-character keywords, identifiers, numbers and punctuation to exercise the spacing rule) filtered to the supported class (every '
           'filtered terminal a string literal, every alternative keeps an unfiltered symbol other than the rule itself, no derivation cycle, input unambiguous by Earley explicit) x {lalr, earley}: for each parse tree of a sampled '
           'sentence, parse(reconstruct(tree)) must equal the tree; the list of items the Reconstructor emits is passed to the Lean joinItems (identifier characters taken from lark\'s is_id_continue) and the assembled text compared. '
-          'Non-trivial = more than one emitted item; distinct by canonical hash. Corpus stream: five realistic conflict-free grammars (nested ?rules with several children, calls with repetition, rule names that are prefixes of one another), long sampled inputs, four trees through one Reconstructor in random order, each compared with a fresh Reconstructor and round-tripped.',
+          'Non-trivial = more than one emitted item; distinct by canonical hash. Corpus stream: five realistic conflict-free grammars (nested ?rules with several children, calls with repetition, rule names that are prefixes of one another), long sampled inputs, four trees through one Reconstructor in random order, each compared with a fresh Reconstructor and round-tripped. One corpus grammar uses everyday rule and alias names (literal, args, token, value, match, rule).',
      not_proved=['that the tree matcher returns a derivation whose shape is the tree (hypothesis hrec of the composition theorem) is not modelled; it is observed through the round trip',
                  'lexical separability of adjacent tokens after assembly (JoinSafe) is a hypothesis: known finding F7 shows it can fail for multi-character punctuation; the generator keeps punctuation single-character'],
      assumptions=['terminal sets of the generator are lexically separable under the spacing rule (outside F7)'],
